@@ -478,11 +478,17 @@ def gen_guards():
     hdr = hdr[: hdr.index("{")]
     g_decode = unwraps == 0 and "Option<" in hdr
     total = unguarded(apply_body)[0] + unguarded(cr)[0] + unguarded(sr)[0]
+    # references inside a payload: the joints of a SkinnedMesh are looked up, unknown ones skipped
+    sk = fn_body(lib, "to_skinned_mesh")
+    g_joints = (bool(re.search(r"if\s+let\s+Some\(\s*\w+\s*\)\s*=\s*tracker\s*\.\s*uuid_to_entity\s*\.\s*get\(", sk))
+                and not re.search(r"uuid_to_entity\s*\[", sk) and not re.search(r"\.unwrap\(\)|\.expect\(", sk))
     text = "/-! GENERATED by /verif/translate/translate.py from src/lib_priv.rs, src/binreflect.rs, src/{client,server}/receiver.rs — do not edit. -/\nnamespace BevySync\nnamespace Generated\n\n"
     text += "def guardApplyLooksUp : Bool := %s\n" % str(g_apply).lower()
     text += "def guardClientParentLooksUp : Bool := %s\n" % str(g_client).lower()
     text += "def guardServerParentLooksUp : Bool := %s\n" % str(g_server).lower()
     text += "def guardDecodeTotal : Bool := %s\n" % str(g_decode).lower()
+    text += "/-- `to_skinned_mesh` maps joint uuids through `uuid_to_entity.get` and skips unknown ones (no indexing, no unwrap) -/\n"
+    text += "def guardSkinnedJointsLookUp : Bool := %s\n" % str(g_joints).lower()
     text += "/-- `.entity(v)` / `.entity_mut(v)` in the message handlers not dominated by a `get_entity(v)` in the same fn -/\n"
     text += "def unguardedEntityAccesses : Nat := %d\n" % total
     text += "def binToReflectUnwraps : Nat := %d\n" % unwraps
@@ -744,6 +750,14 @@ def gen_asset():
     # the worker stores what it fetched into the slot of the uuid
     worker = all(("%s_to_apply.write()" % c) in req for c in ("meshes", "images", "audios")) and req.count("map.insert(id,bytes);") == 3 \
         and "ureq::get(url.as_str()).call()" in req
+    # newest request wins: the sequence number drawn by request() is compared after the whole body has been read and
+    # before anything is stored (the read guard of `latest_request` is held while the slot is written)
+    k_body = req.find(".read_to_end(&mutbytes)")
+    k_chk = req.find("iflatest.get(&id)!=Some(&seq){")
+    k_store = req.find("map.insert(id,bytes);")
+    newest = ("letlatest=latest_request.read()" in req
+              and 0 <= k_body < k_chk < k_store and req.count("latest.get(&id)") == 1
+              and "*n+=1;" in req)
     # process_*: slot drained, one token filed, asset inserted
     proc = True
     for c in ("mesh", "image", "audio"):
@@ -784,7 +798,7 @@ def gen_asset():
     j2 = ab.find("materials.insert(id,*mat);")
     mat = mat and 0 <= j1 < j2
     text = "/-! GENERATED by /verif/translate/translate.py from src/lib_priv.rs, src/networking/assets/mod.rs, src/{server,client}/{track,receiver}.rs — do not edit. -/\nnamespace BevySync\nnamespace Generated\n\n"
-    for name, val in (("assetTokensCounted", counted), ("assetMaterialInlinePath", mat), ("assetRequestSkipsServed", skips_served), ("assetWorkerStoresIntoSlot", worker),
+    for name, val in (("assetTokensCounted", counted), ("assetMaterialInlinePath", mat), ("assetRequestSkipsServed", skips_served), ("assetWorkerStoresIntoSlot", worker), ("assetNewestRequestWins", newest),
                       ("assetProcessFilesToken", proc), ("assetReactDebounceServeAnnounce", react), ("assetReceiversRequestAndRelay", relay)):
         text += "def %s : Bool := %s\n" % (name, str(bool(val)).lower())
     text += FOOTER
